@@ -6,6 +6,10 @@
 //!        HomologyCalc::calculate(d1, d2, wt);  d1 : c2 x c1, d2 : c3 x c2 (row major).  valid = 1: the
 //!        generator built the pair with d2*d1 = 0, rank d1 = r1, rank d2 = r2 and the planted divisibility
 //!        chain whose non-units are the listed torsion tokens (the model ignores these expectations).
+//!        valid = 2: a complex (d2 = 0) whose d1 = U * diag(a_1..a_k) * V has NON-chain diagonal entries (pairwise
+//!        non-associate primes and small products, neither dividing the other): the listed tokens are a_1..a_k, not the
+//!        invariant factors; rank d1 = r1 = k is known, the torsion is only known through its product (~ a_1*..*a_k) and
+//!        the chain condition; cyc, pq, bnd, shape are evaluated as for valid = 1.
 //!   cx <ring> <ddeg> <L> <c_0..c_(L-1)> <rows_0..rows_(L-1)> <mat_0> .. <mat_(L-1)>
 //!        GenericChainComplex::generate(0..L, ddeg, i -> mat_i (rows_i x c_i)).homology()  (public route)
 //!   mg <ring> <ddeg> <valid> <L> <c_0..> <rows_0..> <mat_0> .. <mat_(L-1)> <sd_0> .. <sd_(L-1)>
@@ -191,6 +195,7 @@ where for<'a> &'a R: EucRingOps<R> {
 fn run_hc<R: Elt + EucRing>(ring: &str, wt: bool, t: &[&str]) -> String
 where for<'a> &'a R: EucRingOps<R> {
     let valid = t[0] == "1";
+    let nonchain = t[0] == "2";
     let (r1, r2): (usize, usize) = (t[1].parse().unwrap(), t[2].parse().unwrap());
     let nt: usize = t[3].parse().unwrap();
     let planted: Vec<R> = t[4..4 + nt].iter().map(|s| R::parse(s)).collect();
@@ -244,6 +249,18 @@ where for<'a> &'a R: EucRingOps<R> {
         let rk = c2 >= r1 + r2 && rank == c2 - r1 - r2;
         let ts = tors.len() == planted.len() && tors.iter().zip(planted.iter()).all(|(a, b)| assoc(a, b))
             && tors.iter().all(|a| !a.is_unit() && !a.is_zero());
+        (b01(rk), b01(ts))
+    } else if nonchain {
+        // the planted tokens are the diagonal entries a_1..a_k (all non-zero), not the invariant factors: the reported
+        // torsion must be a divisibility chain of non-units whose product is associated to a_1*..*a_k (the k-th
+        // determinantal divisor; unit invariant factors contribute units only)
+        let rk = c2 >= r1 + r2 && rank == c2 - r1 - r2;
+        let ts = guarded(|| {
+            let mut ok = tors.len() <= planted.len() && tors.iter().all(|a| !a.is_unit() && !a.is_zero());
+            for w in tors.windows(2) { ok &= (&w[1] % &w[0]).is_zero(); }
+            let prod = |v: &[R]| v.iter().fold(R::one(), |acc, x| &acc * x);
+            ok && assoc(&prod(&tors), &prod(&planted))
+        }).unwrap_or(false);
         (b01(rk), b01(ts))
     } else {
         ("-", "-")
@@ -986,6 +1003,102 @@ fn hc_random_case(r: &mut Rng, p: &Plan, wt: bool) -> String {
     ])
 }
 
+/// x | y in Z[i] / Z[omega] (generator-side: y * conj(x) / N(x) has integer coordinates)
+fn gdivides(f: Fam, x: &G, y: &G) -> bool {
+    let n = gnorm(f, x);
+    if n.is_zero() { return gis_zero(y); }
+    let conj = match f {
+        Fam::Gauss => G(vec![x.0[0].clone(), -&x.0[1]]),
+        Fam::Eisen => G(vec![&x.0[0] + &x.0[1], -&x.0[1]]), // conj(omega) = 1 - omega (omega^2 = omega - 1)
+        _ => panic!("gdivides: quadratic rings only"),
+    };
+    let z = gmul(f, y, &conj);
+    (&z.0[0] % &n).is_zero() && (&z.0[1] % &n).is_zero()
+}
+/// small primes of Z[i] / Z[omega], pairwise non-associate (conjugate pairs included: they are what a gcd step separates)
+fn quad_primes(f: Fam) -> Vec<G> {
+    let v: &[(i64, i64)] = match f {
+        Fam::Gauss => &[(1, 1), (1, 2), (2, 1), (3, 0), (2, 3), (3, 2), (1, 4), (4, 1)],
+        // norms 3, 4, 7, 7, 13, 13, 19 (a^2 + ab + b^2)
+        Fam::Eisen => &[(1, 1), (2, 0), (2, 1), (1, 2), (3, 1), (1, 3), (3, 2)],
+        _ => panic!("quad_primes: quadratic rings only"),
+    };
+    v.iter().map(|&(a, b)| G(vec![bi(a), bi(b)])).collect()
+}
+/// diagonal entries that do NOT form a divisibility chain: products of 1..2 primes (optionally times a common factor and
+/// a unit) such that at least one pair has neither x | y nor y | x
+fn nonchain_diag(r: &mut Rng, f: Fam, k: usize) -> Vec<G> {
+    let ps = quad_primes(f);
+    loop {
+        let common = match r.below(4) {
+            0 => r.pick(&ps).clone(),
+            1 => gint(f, *r.pick(&[2, 3])),
+            _ => gone(f),
+        };
+        let mut out = vec![];
+        for _ in 0..k {
+            let mut x = r.pick(&ps).clone();
+            if r.chance(1, 3) { x = gmul(f, &x, r.pick(&ps)); }
+            x = gmul(f, &x, &common);
+            if r.chance(1, 2) { x = gmul(f, &x, r.pick(&units(f))); }
+            out.push(x);
+        }
+        let mut bad_pair = false;
+        for i in 0..k {
+            for j in i + 1..k {
+                bad_pair |= !gdivides(f, &out[i], &out[j]) && !gdivides(f, &out[j], &out[i]);
+            }
+        }
+        if bad_pair { return out; }
+    }
+}
+/// d1 = U * N * V (N: c2 x c1 with the non-chain diagonal), as tokens; returns (k tokens of a_i, c1, c2, d1 tokens)
+fn nonchain_d1(r: &mut Rng, p: &Plan, diag: Option<Vec<G>>) -> (Vec<String>, usize, usize, Vec<String>) {
+    let f = p.fam;
+    let fixed = diag.is_some();
+    let d = diag.unwrap_or_else(|| { let k = 2 + r.below(p.maxdim.min(4) as u64 - 1) as usize; nonchain_diag(r, f, k) });
+    let k = d.len();
+    let (h0, h1) = if fixed { (0, 0) } else { (r.below(2) as usize, r.below(3) as usize) };
+    let (c1, c2) = (k + h0, k + h1);
+    let mut n = gm_zero(f, c2, c1);
+    let off = if h0 > 0 && r.bool() { h0 } else { 0 };
+    for l in 0..k { n[l][off + l] = d[l].clone(); }
+    // every fourth case keeps the diagonal matrix itself (the elimination then starts from the non-chain diagonal)
+    let st = if fixed || r.chance(1, 4) { 0 } else { p.steps };
+    let (u, _) = unimodular(r, f, c2, st, p.bound);
+    let (v, _) = unimodular(r, f, c1, st, p.bound);
+    let m1 = gm_mul(f, &u, &n, c2, c2, c1);
+    let m = gm_mul(f, &m1, &v, c2, c1, c1);
+    (d.iter().map(|x| tok_g(f, x)).collect(), c1, c2, m.iter().flatten().map(|x| tok_g(f, x)).collect())
+}
+/// hc case with valid = 2: C_0 -> C_1 -> C_2, d_out = 0 (c3 = 0..2), d_in with a non-chain diagonal form
+fn hc_nonchain_case(r: &mut Rng, p: &Plan, wt: bool, diag: Option<Vec<G>>) -> String {
+    let (a, c1, c2, d1) = nonchain_d1(r, p, diag);
+    let c3 = r.below(3) as usize;
+    let z = tok_g(p.fam, &gz(p.fam));
+    join_nonempty(&[
+        format!("hc {} {} 2 {} 0 {}", p.ring, wt as u8, a.len(), a.len()),
+        a.join(" "),
+        format!("{} {} {}", c1, c2, c3),
+        d1.join(" "),
+        vec![z; c3 * c2].join(" "),
+    ])
+}
+/// the same complexes through the public route (2 or 3 spaces, d_deg = +-1): `vec` = "vectorize(gen k) = e_k" is evaluated
+fn cx_nonchain_case(r: &mut Rng, p: &Plan, ddeg: i64) -> String {
+    let (_, c1, c2, d1) = nonchain_d1(r, p, None);
+    let c3 = r.below(3) as usize;
+    let z = tok_g(p.fam, &gz(p.fam));
+    // spaces S_0 (c1) -> S_1 (c2) -> S_2 (c3) ; degree i is space i (ddeg = +1) or space 2 - i (ddeg = -1)
+    let sp = [(c1, c2, d1.join(" ")), (c2, c3, vec![z; c3 * c2].join(" ")), (c3, 0usize, String::new())];
+    let order: Vec<usize> = if ddeg > 0 { vec![0, 1, 2] } else { vec![2, 1, 0] };
+    let mut parts = vec![format!("cx {} {} 3", p.ring, ddeg)];
+    parts.push(order.iter().map(|&s| sp[s].0.to_string()).collect::<Vec<_>>().join(" "));
+    parts.push(order.iter().map(|&s| sp[s].1.to_string()).collect::<Vec<_>>().join(" "));
+    for &s in &order { parts.push(sp[s].2.clone()); }
+    join_nonempty(&parts)
+}
+
 /// the public route: a complex of `len` spaces as GenericChainComplex with d_deg = +-1
 fn cx_case(r: &mut Rng, p: &Plan, len: usize, ddeg: i64, malformed: bool) -> String {
     let blocks: Vec<(usize, usize)> = (0..len).map(|_| {
@@ -1196,6 +1309,29 @@ fn main() {
                     let len = 2 + r.below(3) as usize;
                     let ddeg = if k % 2 == 0 { -1 } else { 1 };
                     emit(&mut o, rd_case(&mut r, p, len, ddeg));
+                }
+            }
+            // 7. non-chain diagonal forms over Z[i] / Z[omega] (valid = 2): a genuine gcd step in diag_normalize whose lcm entry
+            //    leaves the normalised sector, so the final unit normalisation multiplies by units that are not their own inverses
+            {
+                let mut rr = r.fork();
+                let q = |a: i64, b: i64| G(vec![bi(a), bi(b)]);
+                for p in plans.iter().filter(|p| p.fam == Fam::Gauss || p.fam == Fam::Eisen) {
+                    if p.bound == 1 {
+                        let ws: Vec<Vec<G>> = if p.fam == Fam::Gauss {
+                            vec![vec![q(3, 6), q(6, 3)], vec![q(1, 2), q(2, 1)], vec![q(2, 1), q(1, 2)], vec![q(1, 2), q(2, 1), q(2, 3)]]
+                        } else {
+                            vec![vec![q(2, 2), q(2, 4)], vec![q(2, 1), q(1, 2)], vec![q(1, 1), q(2, 0)], vec![q(2, 1), q(3, 1), q(1, 2)]]
+                        };
+                        for w in ws { emit(&mut o, hc_nonchain_case(&mut rr, p, true, Some(w))); }
+                    }
+                    for k in 0..(22 * s) {
+                        if k % 5 == 4 {
+                            emit(&mut o, cx_nonchain_case(&mut rr, p, if k % 2 == 0 { -1 } else { 1 }));
+                        } else {
+                            emit(&mut o, hc_nonchain_case(&mut rr, p, k % 7 != 6, None));
+                        }
+                    }
                 }
             }
             o.finish();
